@@ -5,6 +5,7 @@ import (
 	"errors"
 	"fmt"
 	"strconv"
+	"time"
 
 	"github.com/scrapli/scrapligo/util"
 	"github.com/scrapli/scrapligo/util/simhook"
@@ -43,6 +44,40 @@ type result struct {
 	err error
 }
 
+// readUntilDelim reads from the channel until the message delimiter shows up anywhere in what was
+// read so far. Channel.ReadUntilPrompt only searches a line-aligned window at the tail of its
+// buffer, which suits prompts but not a hello: a hello is often one long line, and servers
+// commonly send a line feed right behind the delimiter -- that line feed pushed the delimiter out
+// of the window and the open timed out.
+func (d *Driver) readUntilDelim(ctx context.Context) ([]byte, error) {
+	var rb []byte
+
+	for {
+		select {
+		case <-ctx.Done():
+			return nil, ctx.Err()
+		default:
+		}
+
+		nb, err := d.Channel.Read()
+		if err != nil {
+			return nil, err
+		}
+
+		if nb == nil {
+			time.Sleep(d.Channel.ReadDelay)
+
+			continue
+		}
+
+		rb = append(rb, nb...)
+
+		if d.Channel.PromptPattern.Match(rb) {
+			return rb, nil
+		}
+	}
+}
+
 func (d *Driver) getServerCapabilities() ([]byte, error) {
 	cr := make(chan *result)
 
@@ -58,7 +93,7 @@ func (d *Driver) getServerCapabilities() ([]byte, error) {
 
 		defer close(cr)
 
-		b, err := d.Channel.ReadUntilPrompt(ctx)
+		b, err := d.readUntilDelim(ctx)
 		if err != nil {
 			cr <- &result{b: b, err: err}
 		}
